@@ -505,7 +505,10 @@ pub fn crash_case<D: Distance>(c: &CrashCase, max_kills: usize, st: &mut CaseSta
                 Kill::None => {}
             }
             // the chain continues on the same directory: resume from the recovered version to the end
-            if ki % 4 == 0 && a < last {
+            // (always for the larger histories: a fresh process building on the directory of a killed one is
+            // where leftovers of the kill - e.g. in the private temp directory - would be picked up)
+            let big = spec.rounds.iter().map(|r| r.ops.len()).sum::<usize>() > 150;
+            if (ki % 4 == 0 || big) && a < last {
                 let r2 = drive_child(&dir, &spec_file, a, &Kill::None, a)?;
                 if !r2.done {
                     return violation("crash:not-resumable", format!("{what}: resuming the history from version {a} on the recovered environment did not finish"));
